@@ -124,6 +124,12 @@ fn frame_capacity_asserts_len16() {
     capacity_asserts_at::<16>();
 }
 
+#[kani::proof]
+#[kani::unwind(140)]
+fn frame_capacity_asserts_len64() {
+    capacity_asserts_at::<64>();
+}
+
 /// Bounded stand-in for E-rw-4: chunks(2).map(parse_hex::<u8>).collect() on a hex string of exactly 3 pairs.
 #[kani::proof]
 #[kani::unwind(8)]
